@@ -8,6 +8,7 @@ import Storrent.Model.CryptoConn
    dial <o>                                       -> first kind, retry after each kind
    cw key=<hex> pos=<n> seed=<n> w=<sizes> fail=<p>:<e>|-     Conn.Write sequence
    cr key=<hex> pos=<n> seed=<n> len=<n> ch=<sizes> rd=<sizes>  Conn.Read sequence
+   cre … ch=<n|n!e,…> rd=<sizes>   Conn.Read with bytes delivered together with errors
    sha1 <hex> / rc4 <key hex> <n> / dh <x hex> <y hex>   the Lean primitives against Go's -/
 namespace Storrent.Drive.C08
 open Storrent Storrent.Chunked Storrent.Policy Storrent.CryptoConn Storrent.Handshake
@@ -32,6 +33,20 @@ def parseSizes (s : String) : Option (List Nat) :=
     | [a] => do let n ← a.toNat?; pure (n :: acc)
     | [a, r] => do let n ← a.toNat?; let k ← r.toNat?; pure (List.replicate k n ++ acc)
     | _ => none) (some [])
+
+/-- chunks `n` or `n!e` (the chunk's last byte arrives together with error code e) -/
+def parseEChunks (s : String) : Option (List (Nat × Option Nat)) :=
+  if s == "-" then some []
+  else (s.splitOn ",").mapM fun t =>
+    match t.splitOn "!" with
+    | [a] => do let n ← a.toNat?; pure (n, none)
+    | [a, e] => do let n ← a.toNat?; let c ← e.toNat?; pure (n, some c)
+    | _ => none
+
+/-- cut the wire into error-carrying chunks; a remainder is a last chunk without error -/
+def ecut : List (Nat × Option Nat) → Bytes → CryptoConn.ESrc
+  | [], bs => if bs.isEmpty then [] else [(bs, none)]
+  | (k, e) :: ks, bs => if bs.isEmpty then [] else (bs.take k, e) :: ecut ks (bs.drop k)
 
 /-- the test plaintext: byte i of the stream is (i*7 + seed) mod 256 -/
 def pattern (seed : Nat) (from' n : Nat) : Bytes :=
@@ -118,6 +133,21 @@ def step (v : Variant) (ws : List String) : Variant × String :=
       let (gs, c, src) := CryptoConn.readAll ks ⟨0, pos, none⟩ rd (cut ch wire)
       let lens := ",".intercalate (gs.map fun g => toString g.length)
       pure s!"n={lens} data={payload gs.flatten} dec={c.decPos} left={src.flatten.length}") with
+    | some s => (v, s) | none => (v, "bad-op")
+  | "cre" :: rest =>
+    match (do
+      let key ← ofHex (← kv rest "key")
+      let pos ← (← kv rest "pos").toNat?
+      let seed ← (← kv rest "seed").toNat?
+      let len ← (← kv rest "len").toNat?
+      let ch ← parseEChunks (← kv rest "ch")
+      let rd ← parseSizes (← kv rest "rd")
+      let t := MseCrypto.rc4Stream key (1024 + pos + len + 16)
+      let ks := discard1024 t
+      let wire := xorAt ks pos (pattern seed 0 len)
+      let (gs, c, src) := CryptoConn.readAllErr ks ⟨0, pos, none⟩ rd (ecut ch wire)
+      let rs := ",".intercalate (gs.map fun (g, e) => s!"{g.length}/{match e with | none => "nil" | some n => s!"e{n}"}")
+      pure s!"r={rs} data={payload (gs.map (·.1)).flatten} dec={c.decPos} left={src.bytes.length}") with
     | some s => (v, s) | none => (v, "bad-op")
   | ["sha1", h] =>
     match ofHex h with
